@@ -19,11 +19,13 @@ import (
 	"fmt"
 	"io"
 	"log/slog"
+	"strings"
 	"sync"
 	"time"
 
 	"github.com/pkg/errors"
 	"go.uber.org/multierr"
+	"google.golang.org/grpc/codes"
 	"google.golang.org/grpc/status"
 	pb "google.golang.org/protobuf/proto"
 
@@ -766,11 +768,42 @@ func (lc *leaderController) RangeScan(ctx context.Context, request *proto.RangeS
 }
 
 func (lc *leaderController) WriteBlock(ctx context.Context, request *proto.WriteRequest) (*proto.WriteResponse, error) {
+	if err := validateClientWrite(request); err != nil {
+		return nil, err
+	}
 	return lc.writeBlock(ctx, func(_ int64) *proto.WriteRequest { return request })
 }
 
 func (lc *leaderController) Write(ctx context.Context, request *proto.WriteRequest, cb concurrent.Callback[*proto.WriteResponse]) {
+	if err := validateClientWrite(request); err != nil {
+		cb.OnCompleteError(err)
+		return
+	}
 	lc.write(ctx, func(_ int64) *proto.WriteRequest { return request }, cb)
+}
+
+// validateClientWrite refuses, before anything is appended to the log, the client requests that address
+// the internal key space: those keys hold the shard's own bookkeeping (term, commit offset, sessions,
+// secondary indexes, notifications) and are only written through writeBlock by the server itself.
+func validateClientWrite(request *proto.WriteRequest) error {
+	for _, put := range request.Puts {
+		if strings.HasPrefix(put.Key, constant.InternalKeyPrefix) {
+			return status.Errorf(codes.InvalidArgument, "oxia: key %q is in the reserved internal key space", put.Key)
+		}
+	}
+	for _, del := range request.Deletes {
+		if strings.HasPrefix(del.Key, constant.InternalKeyPrefix) {
+			return status.Errorf(codes.InvalidArgument, "oxia: key %q is in the reserved internal key space", del.Key)
+		}
+	}
+	for _, delRange := range request.DeleteRanges {
+		if strings.HasPrefix(delRange.StartInclusive, constant.InternalKeyPrefix) ||
+			strings.HasPrefix(delRange.EndExclusive, constant.InternalKeyPrefix) {
+			return status.Errorf(codes.InvalidArgument, "oxia: range [%q, %q) is in the reserved internal key space",
+				delRange.StartInclusive, delRange.EndExclusive)
+		}
+	}
+	return nil
 }
 
 func (lc *leaderController) writeBlock(ctx context.Context, requestSupplier func(offset int64) *proto.WriteRequest) (*proto.WriteResponse, error) {
